@@ -321,6 +321,14 @@ def bytearray_shim(*args, **kw):
             return _bytearray(x.concretize())
         if _isinstance(x, (list, tuple)) and any_sym(x):
             return SymByteArray(x)
+        # always the list-backed stand-in: a real bytearray cannot take a symbolic byte stored later
+        # (item assignment would concretise it: 256 forks per byte)
+        if _isinstance(x, int):
+            return SymByteArray([0] * x)
+        if _isinstance(x, (list, tuple, _bytes, _bytearray)):
+            return SymByteArray(list(x))
+    if not args and not kw:
+        return SymByteArray([])
     return _bytearray(*args, **kw)
 
 
